@@ -100,6 +100,25 @@ def anchors(log, sc):
     return out
 
 
+def persist_chain(r):
+    """Transport failures for ever: 1 100 consecutive refused connects under persist() - far more than any floating-point exponent
+    takes - must stay events (judged by the persist monitor Mon_C16: no escape, no hang, one back-off per attempt)."""
+    from . import c16
+    from .. import pipeline
+    n = 1100
+    b = {"w": {"min": 1, "max": 60}, "names": [["connecting", "connect_fail"]] * n,
+         "hist": [{"outcome": "connect_fail", "draw": [1, 2], "k": i + 1, "delay": [0, 1], "stop": i == n - 1} for i in range(n)]}
+    sc = c16.scenario(b)
+    log = pipeline.execute([sc])[0]
+    obj = {"id": 0, "w": b['w'], "hist": b['hist'], "names": b['names'], "kw": c16.KW, "tr": sessprop.slim(log, c16.KINDS, drop=('msg', 'url', 'other'))}
+    rej, states, wall = pipeline.judge('Mon_C16', [obj], field='')
+    r.evaluations += 1
+    r.traces += 1
+    r.cov['persist_chain_of_refused_connects'] = n
+    for tid, clause in rej:
+        r.violation('persist_chain_' + clause, {"kind": "persist_chain", "scenario": sc, "events": [x.get('name', x['k']) for x in obj['tr']][-12:]})
+
+
 def run(tier, seed):
     _offset_budget.clear()
     _offset_budget['limit'] = 6 if tier == 'quick' else 40
@@ -111,6 +130,7 @@ def run(tier, seed):
              '(faults, event sequence, offset) triples',
         nontrivial=nontrivial, need_actions=('Connect', 'SendRequest', 'Recv', 'ExitNonGraceful', 'RegPing'), anchors=anchors, variants=variants, sample_keys=('ev', 'wrf', 'rd', 'sock'),
         random_scripts=[{'cfgname': 'CfgPlain', 'cfg': PLAIN, 'n': (300, 4000), 'http': 'HttpAll', 'items': 'C09Items', 'faults': {'all'}}])
+    persist_chain(r)
     need = {'recv_eof', 'recv_error', 'recv_boom', 'write_fail_op_-1', 'write_fail_op_10', 'write_fail_op_8', 'write_fail_op_9',
             'write_fail_op_1', 'refused', 'dns_fail', 'wait_raise', 'app_send_transport_fail'}
     missing = sorted(need - seen)
@@ -118,4 +138,15 @@ def run(tier, seed):
 
 
 def replay(path, seed):
+    import json
+    case = json.load(open(path))['case']
+    if case.get('kind') == 'persist_chain':
+        from .. import pipeline
+        r = pipeline.Run('C09', 'quick', seed)
+        persist_chain(r)
+        if r.violations:
+            print('VIOLATION property=C09 replay=%s clause=%s' % (path, r.violations[0][0]))
+            return 1
+        print('C09 replay: ok')
+        return 0
     return sessprop.standard_replay('C09', 'Mon_C09', KINDS, path)
